@@ -213,6 +213,24 @@ class Recorder:
         if not _close_lists(rep, ref, floor, small_in):
             self.violation(f'{name}:hygiene:not-repeatable', f'{name} gives a different result when the identical call is repeated')
             return
+        # call form: the same call with every positional argument handed over BY KEYWORD (a wrapper that forwards **kwargs but keys,
+        # validates or re-binds on the positional tuple, or binds positions to the wrong names, answers differently)
+        if a and '<lambda>' not in name and not isinstance(f, functools.partial):
+            try:
+                sigf = inspect.signature(f)
+                ba = sigf.bind(*a, **k)
+                kinds_ok = all(sigf.parameters[p].kind == inspect.Parameter.POSITIONAL_OR_KEYWORD for p in ba.arguments)
+            except (TypeError, ValueError):
+                kinds_ok = False
+            if kinds_ok:
+                self.evals += 1
+                try:
+                    np.random.set_state(rng_state)
+                    kwr = _result_arrays(f(**{p: _map_arrays(v, np.copy) for p, v in ba.arguments.items()}), ext)
+                    if not _close_lists(kwr, ref, floor, small_in):
+                        self.violation(f'{name}:hygiene:keyword-call-form', f'{name} gives a different result when its positional arguments are passed by keyword ({list(ba.arguments)})')
+                except Exception:   # noqa -- a wrapper that insists on positional arguments (functools.wraps hides its *args signature, e.g.
+                    pass                      # prysm's jones_adapter on the pinned tree) refuses the form: not judged, only differing ANSWERS are
         # (e) a plain function's result belongs to the caller: scribbling on it must not change what the next identical call returns
         if _is_plain(f, name):
             outs = _result_arrays(out, True)
